@@ -1,6 +1,7 @@
 package main
 
 import (
+	"regexp"
 	"bytes"
 	"fmt"
 	"math/rand"
@@ -690,6 +691,80 @@ func streamWrite() {
 		s.stat(fmt.Sprintf("tracks-%d", c.flags.track))
 		s.stat(fmt.Sprintf("len-%d", len(c.is)))
 	}
+	// C06 on the real code alone: the same document with N tracks and with one track
+	var multi []int
+	for i, c := range cases {
+		if c.flags.track > 1 && c.flags.track <= 64 && strings.HasPrefix(results[i], "ok") && len(c.attrs) == 0 && len(c.chords) == 0 {
+			multi = append(multi, i)
+		}
+	}
+	if len(multi) > pick(150, 1500) {
+		multi = multi[:pick(150, 1500)]
+	}
+	problems := make([][]string, len(multi))
+	parallel(len(multi), func(j int) {
+		c := cases[multi[j]]
+		doc := []byte(yamlDoc(c.is))
+		many := runCrd(doc, 20*time.Second, append([]string{"write", "event"}, c.flags.args()...)...)
+		one := c.flags
+		one.track = 1
+		single := runCrd(doc, 20*time.Second, append([]string{"write", "event"}, one.args()...)...)
+		if many.class() != "ok" || single.class() != "ok" {
+			if many.class() != single.class() {
+				problems[j] = append(problems[j], fmt.Sprintf("write event ends differently with --track %d (%s) and --track 1 (%s)", c.flags.track, many.class(), single.class()))
+			}
+			return
+		}
+		mm, me := mergedEvents(many.stdout)
+		sm, se := mergedEvents(single.stdout)
+		if strings.Join(mm, "\n") != strings.Join(sm, "\n") {
+			problems[j] = append(problems[j], fmt.Sprintf("the merged events with --track %d differ from --track 1: first difference %q vs %q", c.flags.track, firstDiffLine(mm, sm), firstDiffLine(sm, mm)))
+		}
+		for _, e := range me {
+			if len(se) == 1 && e != se[0] {
+				problems[j] = append(problems[j], fmt.Sprintf("with --track %d a track ends at tick %s, the piece ends at %s (end-of-track ticks %v)", c.flags.track, e, se[0], me))
+				break
+			}
+		}
+		if int64(len(me)) != c.flags.track {
+			problems[j] = append(problems[j], fmt.Sprintf("--track %d wrote %d end-of-track events", c.flags.track, len(me)))
+		}
+	})
+	for j, ps := range problems {
+		s.stat("c06-sibling-pairs")
+		for _, p := range ps {
+			c := cases[multi[j]]
+			s.violate("C06", p, "crd write event "+strings.Join(c.flags.args(), " ")+"\n"+yamlDoc(c.is), p)
+		}
+	}
+}
+
+var eventLineRe = regexp.MustCompile(`^Track (\d+)\t@(\d+)\(\d+\)\t(.*)$`)
+
+// all events but the end-of-track markers as sorted "tick message" lines, and the end-of-track ticks per track
+func mergedEvents(out []byte) (merged []string, eots []string) {
+	for _, l := range strings.Split(string(out), "\n") {
+		m := eventLineRe.FindStringSubmatch(l)
+		if m == nil {
+			continue
+		}
+		if m[3] == "MetaEndOfTrack" {
+			eots = append(eots, m[2])
+			continue
+		}
+		merged = append(merged, fmt.Sprintf("%012s %s", m[2], m[3]))
+	}
+	sort.Strings(merged)
+	return
+}
+
+func firstDiffLine(a, b []string) string {
+	for i := range a {
+		if i >= len(b) || a[i] != b[i] {
+			return a[i]
+		}
+	}
+	return ""
 }
 
 // ---------- dict: user dictionaries through --attr/--chord ----------
